@@ -388,9 +388,194 @@ theorem C13_replace_multi_location_counterexample :
       [.setI [{ addr := 0x5, valid := true, opts := {} }], .confDone,
        .setB 0 [{ locs := [0x10, 0x11], opts := {} }], .setB 0 []]).reg.en = [0x5, 0x11] := by decide
 
+/-! ## 7. Start, restart, and every history -/
+
+theorem mem_enableAll_en (r : Reg) (x : Nat) :
+    x ∈ r.enableAll.en ↔ x ∈ r.en ∨ Addr.glob x ∈ r.dis ∨ Addr.rel x ∈ r.dis := by
+  unfold Reg.enableAll
+  simp only
+  generalize r.en = en
+  induction r.dis generalizing en with
+  | nil => simp
+  | cons a as ih =>
+    rw [List.foldl_cons, ih]
+    cases a with
+    | glob y =>
+      simp only [mem_ins, List.mem_cons, Addr.glob.injEq, reduceCtorEq, false_or]
+      constructor
+      · rintro ((rfl | h) | h | h)
+        · exact Or.inr (Or.inl (Or.inl rfl))
+        · exact Or.inl h
+        · exact Or.inr (Or.inl (Or.inr h))
+        · exact Or.inr (Or.inr h)
+      · rintro (h | (rfl | h) | h)
+        · exact Or.inl (Or.inr h)
+        · exact Or.inl (Or.inl rfl)
+        · exact Or.inr (Or.inl h)
+        · exact Or.inr (Or.inr h)
+    | rel y =>
+      simp only [mem_ins, List.mem_cons, Addr.rel.injEq, reduceCtorEq, false_or]
+      constructor
+      · rintro ((rfl | h) | h | h)
+        · exact Or.inr (Or.inr (Or.inl rfl))
+        · exact Or.inl h
+        · exact Or.inr (Or.inl h)
+        · exact Or.inr (Or.inr (Or.inr h))
+      · rintro (h | h | (rfl | h))
+        · exact Or.inl (Or.inr h)
+        · exact Or.inr (Or.inl h)
+        · exact Or.inl (Or.inl rfl)
+        · exact Or.inr (Or.inr h)
+    | junk y =>
+      simp only [List.mem_cons, reduceCtorEq, false_or]
+
+theorem mem_disableAll_dis (r : Reg) (a : Addr) :
+    a ∈ r.disableAll.dis ↔ a ∈ r.dis ∨ ∃ x ∈ r.en, a = Addr.glob x := by
+  unfold Reg.disableAll
+  simp only
+  exact mem_foldl_ins (fun x => Addr.glob x) r.en r.dis a
+
+/-- **restart keeps the installed set**: for every registry of a running process (no pending templates),
+disabling everything and enabling the templates again (`restart_debugee`) installs exactly the same addresses. -/
+theorem C13_restart_keeps_installed (r : Reg) (h : r.dis = []) (x : Nat) :
+    x ∈ r.disableAll.enableAll.en ↔ x ∈ r.en := by
+  rw [mem_enableAll_en, mem_disableAll_dis, mem_disableAll_dis]
+  simp [h, Reg.disableAll]
+
+/-- **the start installs exactly the templates**: `glob a` (line / function requests made before the start) and
+`rel a` (instruction requests) both become an INT3 at `a`; a relocated address without a place (`junk`) does not. -/
+theorem C13_start_installs_templates (r : Reg) (h : r.en = []) (x : Nat) :
+    x ∈ r.enableAll.en ↔ Addr.glob x ∈ r.dis ∨ Addr.rel x ∈ r.dis := by
+  rw [mem_enableAll_en]; simp [h]
+
+/-- system level: whatever the state, `continue` stops only while the process runs and only at an installed address -/
+theorem C13_cont_stops_at_installed (s : St) (a : Nat) (h : (cont s).2.2 = .stop a) :
+    s.phase = .running ∧ a ∈ s.reg.en := by
+  unfold cont at h
+  cases hp : s.phase <;> simp only [hp] at h <;> try (simp at h)
+  refine ⟨rfl, ?_⟩
+  unfold goFiltered at h
+  rcases hr : runFiltered s.reg.en s.recs (List.drop s.pos s.τ) with ⟨rs, o, n, r⟩
+  simp only [hr] at h
+  cases r with
+  | none => simp at h
+  | some a' =>
+    simp only [Outcome.stop.injEq] at h
+    subst h
+    exact (C13_stops_only_at_installed _ _ _ _ _ _ _ hr).1
+
+/-! ### an invariant of ALL histories: a running process has no pending templates -/
+
+theorem setInsnOne_running_dis (acc : Reg × Nat × List Rec × List (Nat × Bool)) (b : InsnReq) :
+    (setInsnOne true acc b).1.dis = acc.1.dis := by
+  obtain ⟨r, id, recs, fl⟩ := acc
+  unfold setInsnOne
+  simp only [if_true]
+  split <;> rfl
+
+theorem setInsns_running_dis (r : Reg) (id : Nat) (bs : List InsnReq) (recs : List Rec) (fl : List (Nat × Bool)) :
+    (bs.foldl (setInsnOne true) (r, id, recs, fl)).1.dis = r.dis := by
+  suffices H : ∀ acc : Reg × Nat × List Rec × List (Nat × Bool),
+      (bs.foldl (setInsnOne true) acc).1.dis = acc.1.dis from H _
+  induction bs with
+  | nil => intro acc; rfl
+  | cons b rest ih => intro acc; rw [List.foldl_cons, ih, setInsnOne_running_dis]
+
+def NoTemplates (s : St) : Prop := s.phase = .running → s.reg.dis = []
+
+theorem enableAll_dis (r : Reg) : r.enableAll.dis = [] := rfl
+
+theorem goFiltered_noTemplates (s : St) (h : NoTemplates s) : NoTemplates (goFiltered s).1 := by
+  unfold goFiltered
+  rcases hr : runFiltered s.reg.en s.recs (List.drop s.pos s.τ) with ⟨rs, o, n, r⟩
+  cases r with
+  | none => intro hp; simp [St.withRecs] at hp
+  | some a => intro hp; simp only [St.withRecs] at hp ⊢; exact h hp
+
+theorem start_noTemplates (s : St) : NoTemplates (start s).1 := by
+  unfold start
+  apply goFiltered_noTemplates
+  intro _; rfl
+
+theorem exec_noTemplates (s : St) (c : Cmd) (h : NoTemplates s) : NoTemplates (exec s c).1 := by
+  cases c with
+  | setB k bs =>
+    intro hp
+    have hp' : s.phase = .running := by simpa [exec, setLines] using hp
+    exact (C13_running_no_templates s bs k hp' (h hp')).2
+  | setF bs =>
+    intro hp
+    have hp' : s.phase = .running := by simpa [exec, setFns] using hp
+    exact (C13_running_no_templates s bs 0 hp' (h hp')).1
+  | setI bs =>
+    intro hp
+    have hp' : s.phase = .running := by simpa [exec, setInsns] using hp
+    have hr : s.running = true := by simp [St.running, hp']
+    simp only [exec, setInsns, hr]
+    rw [setInsns_running_dis]
+    exact removeRecs_dis_nil _ _ (h hp')
+  | setD bs =>
+    intro hp
+    have hp' : s.phase = .running := by simpa [exec, setData] using hp
+    simpa [exec, setData] using h hp'
+  | confDone =>
+    simp only [exec, confDone]
+    cases hph : s.phase with
+    | unloaded => simpa using start_noTemplates s
+    | running => simpa [hph] using h
+    | exited => simpa [hph] using h
+  | cont =>
+    simp only [exec, cont]
+    cases hph : s.phase with
+    | unloaded => simpa [hph] using h
+    | running => simpa using goFiltered_noTemplates s h
+    | exited => simpa [hph] using h
+  | restart =>
+    simp only [exec, restart]
+    cases hph : s.phase with
+    | unloaded => simpa using start_noTemplates s
+    | running =>
+      simp only []
+      split
+      · intro _; rfl
+      · intro hp; simp at hp
+    | exited =>
+      simp only []
+      split
+      · intro _; rfl
+      · intro hp; simp at hp
+
+/-- **for every trace and every history of requests**, whenever the process runs the registry holds no pending
+template — the hypothesis of the per-request replace theorems is met in every reachable running state. -/
+theorem C13_running_no_templates_all_histories (τ : List Ev) (h : List Cmd) : NoTemplates (execAll (init τ) h) := by
+  unfold execAll
+  suffices H : ∀ s, NoTemplates s → NoTemplates (h.foldl (fun s c => (exec s c).1) s) from
+    H _ (by intro hp; simp [init] at hp)
+  induction h with
+  | nil => intro s hs; exact hs
+  | cons c cs ih => intro s hs; exact ih _ (exec_noTemplates s c hs)
+
+/-- **C13_replace, every history**: after ANY history, a setFunctionBreakpoints request made while the process runs
+leaves installed exactly: what was installed, minus the addresses recorded for the previous function breakpoints,
+plus all locations of the new request (same for setBreakpoints of a source). -/
+theorem C13_replace_after_any_history (τ : List Ev) (h : List Cmd) (bs : List BpReq) (k x : Nat)
+    (hrun : (execAll (init τ) h).phase = .running) :
+    let s := execAll (init τ) h
+    (x ∈ (setFns s bs).1.reg.en ↔ (x ∈ s.reg.en ∧ Addr.rel x ∉ recAddrs s.fn) ∨ ∃ b ∈ bs, x ∈ b.locs) ∧
+    (x ∈ (setLines s k bs).1.reg.en ↔
+      (x ∈ s.reg.en ∧ Addr.rel x ∉ recAddrs (alookup k s.src)) ∨ ∃ b ∈ bs, x ∈ b.locs) := by
+  have hd := C13_running_no_templates_all_histories τ h hrun
+  exact ⟨C13_replace_functions_running _ bs hrun hd x, C13_replace_lines_running _ k bs hrun hd x⟩
+
 /-! ## non-vacuity / sanity (tests, not theorems) -/
 
 example : noOp "12".toList = true := by decide
+example : NoTemplates (execAll (init [(5, 0)]) [.setI [{ addr := 5, valid := true, opts := {} }], .confDone]) ∧
+    (execAll (init [(5, 0)]) [.setI [{ addr := 5, valid := true, opts := {} }], .confDone]).phase = .running := by
+  constructor
+  · exact C13_running_no_templates_all_histories _ _
+  · decide
+example : ∃ r : Reg, r.dis = [] ∧ r.en ≠ [] ∧ r.disableAll.dis ≠ [] := ⟨{ dis := [], en := [7] }, rfl, by decide, by decide⟩
 example : (decideRec 1 { cond := .lit false, hit := some (.exact 1), log := some 3 } 1 0).1 = .skip := by decide
 example : ∃ s : St, s.phase = .running ∧ s.reg.dis = [] ∧ s.reg.en ≠ [] :=
   ⟨execAll (init [(5, 0)]) [.setI [{ addr := 5, valid := true, opts := {} }], .confDone], by decide, by decide, by decide⟩
